@@ -1061,7 +1061,15 @@ func runRemuxOutScenario(sc *roScenario, tw *TraceWriter, tmp string) {
 				m.Asc = roAscFields(m.Ver)
 			}
 			ev := M{"ev": "Pub", "m": m, "ts": roT3(st.Ts), "panic": ""}
-			ev["panic"] = protect(func() { g.OnReadRtmpAvMsg(msg) })
+			// the group gets its own copy of the message, which is overwritten after the call: the publisher's read
+			// loop reuses its buffer (rtmp.ChunkComposer), so whatever lal keeps must be a copy of its own
+			gm := msg.Clone()
+			ev["panic"] = protect(func() { g.OnReadRtmpAvMsg(gm) })
+			if os.Getenv("VERIF_NOPOISON") == "" {
+				for i := range gm.Payload {
+					gm.Payload[i] ^= 0x5a
+				}
+			}
 			ev["out"] = drainAll()
 			if sc.Cfg.Rtsp {
 				rt := M{}
